@@ -26,6 +26,20 @@ import (
 
 var inlinedResultName = regexp.MustCompile(`^_i[0-9]+_r[0-9]+$`)
 
+// setInstrBlock sets the unexported block pointer of an instruction (the first field of the innermost embedded
+// anInstruction).
+func setInstrBlock(ins ssa.Instruction, b *ssa.BasicBlock) {
+	v := reflect.ValueOf(ins).Elem()
+	for v.Kind() == reflect.Struct {
+		f := v.Field(0)
+		if f.Kind() == reflect.Ptr && f.Type() == reflect.TypeOf(b) {
+			*(**ssa.BasicBlock)(unsafe.Pointer(f.UnsafeAddr())) = b
+			return
+		}
+		v = f
+	}
+}
+
 func newJump(b *ssa.BasicBlock) *ssa.Jump {
 	j := new(ssa.Jump)
 	f := reflect.ValueOf(j).Elem().Field(0).Field(0)
@@ -177,22 +191,60 @@ func threadResultBlock(fn *ssa.Function, b *ssa.BasicBlock) bool {
 	if rr := cmp.Referrers(); rr == nil || len(*rr) != 1 {
 		return false
 	}
+	// the block: phis, then (where the results are kept in variables that a closure shares, or in named results that a
+	// defer sees) the variables' allocations, the stores of the phis into them and the load of the one that is tested
+	var phis []*ssa.Phi
+	var middle []ssa.Instruction
+	for _, ins := range b.Instrs[:n-2] {
+		if ph, isPhi := ins.(*ssa.Phi); isPhi && len(middle) == 0 {
+			phis = append(phis, ph)
+			continue
+		}
+		switch x := ins.(type) {
+		case *ssa.Alloc, *ssa.Store:
+		case *ssa.UnOp:
+			if x.Op != token.MUL {
+				return false
+			}
+			// used in this block only
+			if rr := x.Referrers(); rr != nil {
+				for _, u := range *rr {
+					if u.Block() != b {
+						return false
+					}
+				}
+			}
+		default:
+			return false
+		}
+		middle = append(middle, ins)
+	}
+	operand := cmp.X
+	if isNilConst(cmp.X) {
+		operand = cmp.Y
+	} else if !isNilConst(cmp.Y) {
+		return false
+	}
 	var tested *ssa.Phi
-	if ph, ok := cmp.X.(*ssa.Phi); ok && isNilConst(cmp.Y) {
+	if ph, isPhi := operand.(*ssa.Phi); isPhi {
 		tested = ph
-	} else if ph, ok := cmp.Y.(*ssa.Phi); ok && isNilConst(cmp.X) {
-		tested = ph
+	} else if ld, isLoad := operand.(*ssa.UnOp); isLoad && ld.Op == token.MUL && ld.Block() == b {
+		// the load of a variable: what the last store in front of it put there
+		var last *ssa.Store
+		for _, ins := range middle {
+			if ins == ssa.Instruction(ld) {
+				break
+			}
+			if st, isS := ins.(*ssa.Store); isS && st.Addr == ld.X {
+				last = st
+			}
+		}
+		if last != nil {
+			tested, _ = last.Val.(*ssa.Phi)
+		}
 	}
 	if tested == nil || tested.Block() != b {
 		return false
-	}
-	var phis []*ssa.Phi
-	for _, ins := range b.Instrs[:n-2] {
-		ph, ok := ins.(*ssa.Phi)
-		if !ok {
-			return false
-		}
-		phis = append(phis, ph)
 	}
 	nonNilSucc, nilSucc := b.Succs[0], b.Succs[1]
 	if cmp.Op == token.EQL {
@@ -215,6 +267,32 @@ func threadResultBlock(fn *ssa.Function, b *ssa.BasicBlock) bool {
 	}
 	if len(nilPreds) == 0 || len(keepPreds) == 0 {
 		return false
+	}
+	if len(middle) > 0 {
+		// the stores are repeated at the end of the one predecessor that brings nil: it must end in a plain jump
+		for _, i := range nilPreds {
+			np := b.Preds[i]
+			if len(np.Succs) != 1 || len(np.Instrs) == 0 {
+				return false
+			}
+			if _, isJ := np.Instrs[len(np.Instrs)-1].(*ssa.Jump); !isJ {
+				return false
+			}
+		}
+		for _, ins := range middle {
+			if st, isS := ins.(*ssa.Store); isS {
+				// what is stored and where is defined outside the middle (a phi of b, an allocation, a value from above)
+				for _, v := range []ssa.Value{st.Addr, st.Val} {
+					if vi, isI := v.(ssa.Instruction); isI && vi.Block() == b {
+						if _, isPhi := v.(*ssa.Phi); !isPhi {
+							if _, isAl := v.(*ssa.Alloc); !isAl {
+								return false
+							}
+						}
+					}
+				}
+			}
+		}
 	}
 	for _, i := range nilPreds {
 		if b.Preds[i] == b {
@@ -246,6 +324,11 @@ func threadResultBlock(fn *ssa.Function, b *ssa.BasicBlock) bool {
 		for _, u := range *rr {
 			if u == ssa.Instruction(cmp) {
 				continue
+			}
+			if u.Block() == b {
+				if _, isPhi := u.(*ssa.Phi); !isPhi {
+					continue // a store of the middle
+				}
 			}
 			var blocks []*ssa.BasicBlock
 			if up, isPhi := u.(*ssa.Phi); isPhi {
@@ -332,6 +415,39 @@ func threadResultBlock(fn *ssa.Function, b *ssa.BasicBlock) bool {
 		}
 		dropRef(u.ph, u.ins)
 	}
+	if len(middle) > 0 {
+		entry := fn.Blocks[0]
+		var keepMid []ssa.Instruction
+		for _, ins := range b.Instrs {
+			if al, isAl := ins.(*ssa.Alloc); isAl && b != entry {
+				setInstrBlock(al, entry)
+				entry.Instrs = append([]ssa.Instruction{al}, entry.Instrs...)
+				continue
+			}
+			keepMid = append(keepMid, ins)
+		}
+		b.Instrs = keepMid
+		n = len(b.Instrs)
+		for _, pi := range nilPreds {
+			np := b.Preds[pi]
+			var clones []ssa.Instruction
+			for _, ins := range middle {
+				st, isS := ins.(*ssa.Store)
+				if !isS {
+					continue
+				}
+				c := new(ssa.Store)
+				c.Addr = edgeValue(st.Addr, pi)
+				c.Val = edgeValue(st.Val, pi)
+				setInstrBlock(c, np)
+				addRef(c.Addr, c)
+				addRef(c.Val, c)
+				clones = append(clones, c)
+			}
+			last := np.Instrs[len(np.Instrs)-1]
+			np.Instrs = append(append(np.Instrs[:len(np.Instrs)-1:len(np.Instrs)-1], clones...), last)
+		}
+	}
 	var newPreds []*ssa.BasicBlock
 	for x, tp := range nilSucc.Preds {
 		if x == j {
@@ -407,7 +523,7 @@ func threadResultBlock(fn *ssa.Function, b *ssa.BasicBlock) bool {
 		ph.Edges = ne
 	}
 	b.Preds = kp
-	dropRef(tested, cmp)
+	dropRef(operand, cmp)
 	b.Instrs = append(b.Instrs[:n-2:n-2], newJump(b))
 	b.Succs = []*ssa.BasicBlock{nonNilSucc}
 	// a phi that is left with one edge is that value
@@ -501,6 +617,21 @@ func foldDecidedNilTests(fn *ssa.Function) {
 		}
 		iff, ok := b.Instrs[n-1].(*ssa.If)
 		if !ok {
+			continue
+		}
+		if val, isConst := constCondition(iff.Cond); isConst && inlinedConstant(iff.Cond) {
+			// a condition that is a constant since a helper was inlined with a literal argument (`sync` in
+			// appendRecord(record, true)): only the side the constant takes exists
+			keep, drop := b.Succs[0], b.Succs[1]
+			if !val {
+				keep, drop = drop, keep
+			}
+			if removeEdge(b, drop) {
+				b.Instrs = append(b.Instrs[:n-1:n-1], newJump(b))
+				b.Succs = []*ssa.BasicBlock{keep}
+				delete(domCache, fn)
+				folded = true
+			}
 			continue
 		}
 		bo, ok := iff.Cond.(*ssa.BinOp)
@@ -663,4 +794,57 @@ func dropUnreachable(fn *ssa.Function) {
 		u.Succs = nil
 		u.Preds = nil
 	}
+}
+
+// inlinedConstant: the constant condition comes from an inlined helper's parameter (the variables the block inliner
+// introduces are named _iN_pM; their value reaches the condition as a constant). Constant conditions that are written
+// in the tree itself (build-time switches) are left alone: rules may have been written against both sides.
+func inlinedConstant(cond ssa.Value) bool {
+	return loadingNormalised
+}
+
+// loadingNormalised: the tree being loaded is the scratch copy with the inlined helpers (set by Load).
+var loadingNormalised bool
+
+// removeEdge takes one occurrence of b out of drop's predecessors and the matching edge out of its phis.
+func removeEdge(b, drop *ssa.BasicBlock) bool {
+	j := -1
+	for x, tp := range drop.Preds {
+		if tp == b {
+			j = x
+			break
+		}
+	}
+	if j < 0 {
+		return false
+	}
+	for _, ins := range drop.Instrs {
+		ph, isP := ins.(*ssa.Phi)
+		if !isP {
+			break
+		}
+		if j >= len(ph.Edges) {
+			continue
+		}
+		e := ph.Edges[j]
+		ph.Edges = append(ph.Edges[:j:j], ph.Edges[j+1:]...)
+		still := false
+		for _, o := range ph.Edges {
+			if o == e {
+				still = true
+			}
+		}
+		if !still {
+			if rr := e.Referrers(); rr != nil {
+				for x, r := range *rr {
+					if r == ssa.Instruction(ph) {
+						*rr = append((*rr)[:x:x], (*rr)[x+1:]...)
+						break
+					}
+				}
+			}
+		}
+	}
+	drop.Preds = append(drop.Preds[:j:j], drop.Preds[j+1:]...)
+	return true
 }
